@@ -221,6 +221,17 @@ func (e *Srv) url(path string) string {
 
 // Do issues an HTTP request and returns status and body.
 func (e *Srv) Do(method, path string, body []byte, ctype string) (int, []byte, error) {
+	st, b, err := e.do(method, path, body, ctype)
+	// A GET is idempotent: a transport-level failure (the test server drops idle or slow
+	// connections after 2.5 s, which a starved machine can hit) is retried, never judged.
+	for i := 0; i < 4 && err != nil && method == "GET"; i++ {
+		time.Sleep(time.Duration(20*(i+1)) * time.Millisecond)
+		st, b, err = e.do(method, path, body, ctype)
+	}
+	return st, b, err
+}
+
+func (e *Srv) do(method, path string, body []byte, ctype string) (int, []byte, error) {
 	var rd io.Reader
 	if body != nil {
 		rd = bytes.NewReader(body)
